@@ -67,15 +67,19 @@ def padding_rule(ctx, rep, fn, width):
 
 def direct_shape(ctx, se, fn, width):
     body = se.body
-    # the value returned / stored: after<index_mut(buf, Range{0, len(V)})>([0; width])
-    cands = [t for t in walk(strip(se.ret)) if t[0] == "after" and util.is_call(t[1]) and t[1][1].endswith("::index_mut")]
+    # the value returned / stored: after<index_mut(buf, Range{0, len(V)})>([0; width]), or the
+    # low part of buf.split_at_mut(len(V))
+    def is_cut(t):
+        return t[0] == "after" and util.is_call(t[1]) and (t[1][1].endswith("::index_mut") or t[1][1].split("::")[-1] == "split_at_mut")
+
+    cands = [t for t in walk(strip(se.ret)) if is_cut(t)]
     if se.ret[0] == "phi":
         for v in se.phi_inputs.get((se.ret[2], se.ret[3]), {}).values():
-            cands += [t for t in walk(strip(v)) if t[0] == "after" and util.is_call(t[1]) and t[1][1].endswith("::index_mut")]
+            cands += [t for t in walk(strip(v)) if is_cut(t)]
     # also aggregates assigned on the way (client_try_from_bigint returns Ok(Self{key}))
     for (bi, si), (loc, v) in se.assigns.items():
         if v[0] == "agg":
-            cands += [t for t in walk(strip(v)) if t[0] == "after" and util.is_call(t[1]) and t[1][1].endswith("::index_mut")]
+            cands += [t for t in walk(strip(v)) if is_cut(t)]
     cands = list({c for c in cands})
     good = False
     why = "%d index_mut-based copies" % len(cands)
@@ -96,7 +100,10 @@ def direct_shape(ctx, se, fn, width):
         base_ok = base[0] == "repeat" and base[1][:2] == ("int", 0) and base[2] == width
         rng_ok = False
         end_t = None
-        if rng[0] == "agg" and rng[2] == "std::ops::Range" and rng[4][0][:2] == ("int", 0):
+        is_split = c[1][1].split("::")[-1] == "split_at_mut"
+        if is_split:
+            rng_ok, end_t = True, rng         # [0, mid) is the first of the two parts
+        elif rng[0] == "agg" and rng[2] == "std::ops::Range" and rng[4][0][:2] == ("int", 0):
             rng_ok, end_t = True, rng[4][1]
         elif rng[0] == "agg" and rng[2] == "std::ops::RangeTo":
             rng_ok, end_t = True, rng[4][0]
@@ -111,9 +118,21 @@ def direct_shape(ctx, se, fn, width):
             cp = copies[0]
             dest = cp["locargs"][0]
             d = dest[1] if dest[0] == "ref" else None
-            dest_ok = d is not None and d[0] == "deref" and strip(d[1]) == strip(c[1])
+            dest_ok = d is not None and d[0] == "deref" and (strip(d[1]) == ("field", strip(c[1]), 0) if is_split else strip(d[1]) == strip(c[1]))
             src = peel_ident(cp["args"][1])
             copy_ok = dest_ok and src == src_len
+        if copy_ok:
+            # nothing else writes through the borrowed part(s): the copy is the only call handed
+            # (a piece of) the cut, and no store goes through it
+            cut = strip(c[1])
+
+            def touches(x):
+                return any(y == cut for y in walk(strip(x)))
+
+            others = [i for i in se.term_info.values() if i.get("k") == "call" and i is not copies[0] and strip(i.get("term", ("?",))) != cut and any(touches(a[1]) for a in i.get("locargs", ()) if isinstance(a, tuple) and a and a[0] == "ref")]
+            stores = [1 for (bi_, si_), (loc_, v_) in se.assigns.items() if loc_[0] in ("index", "cindex", "deref") and touches(loc_)]
+            if others or stores:
+                copy_ok = False
         v_ok = src_len is not None and util.is_call(src_len, "bigint::Integer::to_bytes_le") and strip(src_len[2][0]) == ("param", 1)
         good = base_ok and rng_ok and copy_ok and v_ok
         why = "array = [0; %d]; array[0..len(v)] = v where v = to_bytes_le(value)" % width if good else "zero base %s, range from 0 %s, copy of the same bytes %s, source is to_bytes_le(param) %s" % (base_ok, rng_ok, copy_ok, v_ok)
